@@ -91,8 +91,8 @@ PROPS["C13"] = {
         K("hx-client", "c13::c13_expA_f2_a66", T, bounds="factor=2, attempts=66 (2^64 overflows u64 at attempt 65); step,max symbolic", timeout=3400, mem_gb=16),
         K("hx-client", "c13::c13_expA_f10_a21", T, bounds="factor=10, attempts=21 (10^20 overflows at attempt 21); step,max symbolic", timeout=3400, mem_gb=16),
         K("hx-client", "c13::c13_expA_symbolic_factor_a2", T, bounds="factor: every u64, attempts=2; step,max symbolic", timeout=3400),
-        # exponential (B): the law against the reference, step from a menu of 8 concrete values, max symbolic
-        K("hx-client", "c13::c13_expB_f0_a3", Q, bounds="factor=0, attempts=3; step in STEP_MENU (8 values incl. 0, 1ns, Duration::MAX); max symbolic"),
+        # exponential (B): the law against the reference, step from a menu of 9 concrete values, max symbolic
+        K("hx-client", "c13::c13_expB_f0_a3", Q, bounds="factor=0, attempts=3; step in STEP_MENU (9 values incl. 0, 1ns, Duration::MAX); max symbolic"),
         K("hx-client", "c13::c13_expB_f1_a3", Q, bounds="factor=1, attempts=3; step in STEP_MENU; max symbolic"),
         K("hx-client", "c13::c13_expB_f2_a4", Q, bounds="factor=2, attempts=4; step in STEP_MENU; max symbolic"),
         K("hx-client", "c13::c13_expB_f3_a5", T, bounds="factor=3, attempts=5; step in STEP_MENU; max symbolic"),
@@ -104,7 +104,7 @@ PROPS["C13"] = {
                   "<BackoffStrategyIter as Iterator>::next"],
     "bounds": {"quick": "constant/linear: attempts in {0,1,3}, every step and max (u64 s + u32 ns). exponential: factors {0,1,2,2^32,u64::MAX}, attempts 3-4; "
                         "structural part (count, numbering, clamp, saturation on u64 overflow of the power, monotonicity, no panic) for every step and max; "
-                        "the law value itself against the reference for 8 concrete steps (0, 1ns, 999999999ns, 1s, 2.5s, 1h, 2^40s+7ns, Duration::MAX) and every max",
+                        "the law value itself against the reference for 9 concrete steps (0, 1ns, 999999999ns, 1s, 2.5s, 1h, 2^40s+7ns, 2^63s, Duration::MAX) and every max",
                "thorough": "adds attempts 6 (constant/linear), factors 3, 10, symbolic factor with 2 attempts, and the schedules in which the power leaves u64: (f=2, 66 attempts), (f=10, 21 attempts)"},
     "outside": "attempt counts beyond the listed ones; the exact exponential law value for steps outside the 8-value menu (a second symbolic copy of the f64 product is an equivalence CBMC does not finish); factors other than the listed ones except in the 2-attempt symbolic-factor harness",
     "assumptions": ["reference for the linear law is std's Duration::checked_mul; for the exponential law the single f64 product is "
@@ -208,7 +208,7 @@ PROPS["C06"] = {
         _p("c06::c06_frame_t2_b9", T, "complete RegisterReplier frame, 9 arbitrary payload bytes", timeout=3000, mem_gb=14),
         _p("c06::c06_frame_t3_b17", T, "complete RegisterRequestor frame, 17 arbitrary payload bytes", timeout=3000, mem_gb=14),
         _p("c06::c06_frame_t4_b0", Q, "complete Message frame, 0 payload bytes", timeout=1800),
-        _p("c06::c06_frame_t4_b1", Q, "complete Message frame, 1 arbitrary payload byte", timeout=1800),
+        _p("c06::c06_frame_t4_b1", T, "complete Message frame, 1 arbitrary payload byte", timeout=2400),
         _p("c06::c06_frame_t4_b9", T, "complete Message frame, 9 arbitrary payload bytes (header-map count <= 1)", timeout=3000, mem_gb=14),
         _p("c06::c06_frame_t4_b17", T, "complete Message frame, 17 arbitrary payload bytes (header-map count <= 1)", timeout=3000, mem_gb=14),
         _p("c06::c06_frame_t5_b4", Q, "complete BatchMessage frame, 4 arbitrary bytes"),
@@ -224,10 +224,8 @@ PROPS["C06"] = {
         _p("c06::c06_bytes_b4", Q, "BytesCodec::decode, 4 arbitrary bytes"),
         _p("c06::c06_bincode_b0", Q, "BincodeCodec<{String,u64}>::decode, 0 bytes"),
         _p("c06::c06_bincode_b7", Q, "BincodeCodec::decode, 7 arbitrary bytes"),
-        _p("c06::c06_bincode_hugelen_b8", Q, "BincodeCodec::decode, 8 bytes announcing a string of >= 2^63 bytes; Vec::resize replaced by a size observer", timeout=1800, mem_gb=16),
-        _p("c06::c06_bincode_b8", T, "BincodeCodec::decode, 8 arbitrary bytes (every string length prefix)", timeout=3000, mem_gb=16),
-        _p("c06::c06_bincode_b12", T, "BincodeCodec::decode, 12 arbitrary bytes", timeout=3000, mem_gb=16),
-        _p("c06::c06_bincode_b17", T, "BincodeCodec::decode, 17 arbitrary bytes", timeout=3000, mem_gb=16),
+        _p("c06::c06_bincode_hugelen_b8", Q, "BincodeCodec::decode, 8 bytes announcing a string of >= 2^63 bytes; Vec::resize replaced by a size observer", timeout=900, mem_gb=12),
+        _p("c06::c06_bincode_b8", Q, "BincodeCodec::decode, 8 arbitrary bytes (every string length prefix)", timeout=1200, mem_gb=12),
     ],
 }
 
@@ -237,13 +235,21 @@ PROPS["C14"] = {
     "note": 'Trusted: rustc/Kani MIR-to-goto translation, CBMC 6.11 + cadical, the re-implemented kani-driver steps of engines/kplus.py (cross-checked against cargo kani). Stubs (environment, listed per obligation in the evidence): alloc::fmt::format -> empty String; std::hash::RandomState::new -> fixed keys; std::backtrace::Backtrace::capture -> disabled. Lengths are concrete per harness, contents symbolic. Counterexamples are replayed natively (dev and release-like profiles) before being reported; timeouts / out-of-memory / too-small unwind bounds are reported as inconclusive (exit 2).',
     "obligations": [
         _p("c14::c14_string_rt_c0", Q, "StringCodec round trip, empty string"),
-        _p("c14::c14_string_rt_c1", Q, "StringCodec round trip, every string of 2 UTF-8 bytes"),
-        _p("c14::c14_string_rt_c2", T, "StringCodec round trip, every string of 4 UTF-8 bytes", timeout=1800),
+        _p("c14::c14_string_rt_c1", T, "StringCodec round trip, every string of 2 UTF-8 bytes", timeout=2400, mem_gb=24),
+        _p("c14::c14_string_rt_c2", T, "StringCodec round trip, every string of 4 UTF-8 bytes", timeout=3000, mem_gb=24),
         _p("c14::c14_string_any_b1", Q, "StringCodec::decode on every 1-byte input", timeout=1800, mem_gb=20),
         _p("c14::c14_string_any_b2", Q, "StringCodec::decode on every 2-byte input", timeout=1800, mem_gb=20),
         _p("c14::c14_string_any_b3", T, "StringCodec::decode on every 3-byte input", timeout=1800),
         _p("c14::c14_string_any_b4", T, "StringCodec::decode on every 4-byte input", timeout=3000, mem_gb=14),
-        _p("c14::c14_string_invalid_menu", Q, "StringCodec::decode on 9 concrete invalid UTF-8 shapes (truncated 2/3/4-byte sequences, lone continuation, overlong, surrogate, 0xFF, bad continuation, > U+10FFFF)"),
+        _p("c14::c14_string_invalid_trunc2", Q, "StringCodec::decode on a concrete invalid UTF-8 input: truncated 2-byte sequence"),
+        _p("c14::c14_string_invalid_trunc3", Q, "StringCodec::decode on a concrete invalid UTF-8 input: truncated 3-byte sequence after ASCII"),
+        _p("c14::c14_string_invalid_trunc4", Q, "StringCodec::decode on a concrete invalid UTF-8 input: truncated 4-byte sequence"),
+        _p("c14::c14_string_invalid_lone_cont", Q, "StringCodec::decode on a concrete invalid UTF-8 input: lone continuation byte"),
+        _p("c14::c14_string_invalid_overlong", Q, "StringCodec::decode on a concrete invalid UTF-8 input: overlong encoding"),
+        _p("c14::c14_string_invalid_surrogate", Q, "StringCodec::decode on a concrete invalid UTF-8 input: encoded surrogate"),
+        _p("c14::c14_string_invalid_ff", Q, "StringCodec::decode on a concrete invalid UTF-8 input: 0xFF"),
+        _p("c14::c14_string_invalid_mid", Q, "StringCodec::decode on a concrete invalid UTF-8 input: bad continuation in the middle"),
+        _p("c14::c14_string_invalid_too_big", Q, "StringCodec::decode on a concrete invalid UTF-8 input: code point above U+10FFFF"),
         _p("c14::c14_bytes_rt_b0", Q, "BytesCodec round trip, empty"),
         _p("c14::c14_bytes_rt_b4", Q, "BytesCodec round trip, every 4-byte value"),
         _p("c14::c14_bincode_rt_c0", Q, "BincodeCodec<{String,u64}> round trip, empty string, every u64"),
